@@ -19,8 +19,12 @@ def _s(v):
     return v.ljust(8)[:8].encode('ascii')
 
 
+PAD = [b'\x00' * 4]
+
+
 def _i(v):
-    return struct.pack('<i', v) + b'\x00' * 4
+    # the four bytes after a 4-byte integer are unused padding: zero, blank or arbitrary in real files
+    return struct.pack('<i', v) + PAD[0]
 
 
 def _d(v):
@@ -54,7 +58,8 @@ def node_array(sg):
     return arr
 
 
-def write_gsb(path, subgrids, system_f='GDA94', system_t='GDA2020', gs_type='SECONDS', version='TESTv1'):
+def write_gsb(path, subgrids, system_f='GDA94', system_t='GDA2020', gs_type='SECONDS', version='TESTv1', pad=b'\x00' * 4):
+    PAD[0] = pad
     arrays = []
     with open(path, 'wb') as f:
         f.write(_key('NUM_OREC') + _i(11))
